@@ -324,9 +324,10 @@ func fsmPairedExplore(c *Ctx, n, t int, maxStates int) (states, pairs int) {
 }
 
 func checkC19(c *Ctx) {
-	c.Rule = "two explorations. (1) state_machines driven directly (Create/Do/Dump/FromDump) breadth-first over the full event alphabet incl. the hand-over events and two signing batches: for every reachable state and every event, continuing on the live instance is compared with continuing on an instance restored from the dump (acceptance, next state, response JSON, resulting dump); every reachable state must restore. (2) the C05 node-level exploration and the C06 signing exploration: every reachable persisted round must restore and the node's round listing must succeed on a store containing it. In (1) a second comparison keeps ONE instance alive through the whole path since the last hand-over (every accepted event, an eighth of the others). (r) an instance that lived through a rejected event must answer every accepted event like a restored one. Dumps handed out by a long-lived instance are kept next to copies and must stay equal to them. distinct = distinct reachable states judged"
+	c.Rule = "two explorations. (1) state_machines driven directly (Create/Do/Dump/FromDump) breadth-first over the full event alphabet incl. the hand-over events and two signing batches: for every reachable state and every event, continuing on the live instance is compared with continuing on an instance restored from the dump (acceptance, next state, response JSON, resulting dump); every reachable state must restore. (2) the C05 node-level exploration and the C06 signing exploration: every reachable persisted round must restore and the node's round listing must succeed on a store containing it. In (1) a second comparison keeps ONE instance alive through the whole path since the last hand-over (every accepted event, an eighth of the others). (r) an instance that lived through a rejected event must answer every accepted event like a restored one. Dumps handed out by a long-lived instance are kept next to copies and must stay equal to them. A node holding four rounds in different states must list each with the state the round restores to on its own, on twelve consecutive listings. distinct = distinct reachable states judged"
 	c.Assumptions = []string{"hand-over states (proposal collected, master key collected) are excluded from the live-vs-restored comparison only: the machine that reached them cannot continue by construction and the node always restores there", "responses built by iterating Go maps are compared as multisets"}
 	c.Exhaustive = true
+	c19SeveralRoundsListed(c)
 	type cfg struct{ n, t int }
 	var cfgs []cfg
 	for n := 2; n <= c.Pick(3, 4); n++ {
@@ -482,5 +483,84 @@ func judgeServedDump(c *Ctx, n *world.Node, round string, stored []byte, state s
 	var m map[string]string
 	if json.Unmarshal(lst, &m) != nil || m[round] != state {
 		c.Violate("C19/round-listing-differs-from-persisted:"+state, fmt.Sprintf("GET /getFSMList says %q for the round, persisted state is %q", m[round], state), wit)
+	}
+}
+
+// c19SeveralRoundsListed: a node that holds several rounds in different states (one declined, one waiting
+// for confirmations, one in the key phase, one signing-ready and finished) must list every round with the
+// state that round restores to on its own (get_fsm_list vs the per-round dump), on every call: listing
+// restores all rounds in one go, and Go's map order changes from call to call.
+func c19SeveralRoundsListed(c *Ctx) {
+	for rep := 0; rep < c.Pick(2, 6); rep++ {
+		func() {
+			seed := c.Seed*523 + uint64(rep)
+			ce, err := NewCeremony(seed, 2, 2, world.EagerPolicy) // a finished round: signing-ready
+			if err != nil {
+				c.Inconclusive("several-rounds world: %v", err)
+				return
+			}
+			defer ce.Close()
+			w := ce.W
+			v := w.Nodes[0]
+			rounds := []string{ce.Round}
+			// a round declined by participant 1
+			if id, err := w.StartDKG(0, 2, now().Add(time.Second)); err == nil {
+				_ = w.Board.Send(world.SignMsg(w.Nodes[1], id, EvDecline, mkReq(requests.SignatureProposalParticipantRequest{ParticipantId: 1, CreatedAt: now()}), ""))
+				rounds = append(rounds, id)
+			}
+			// a round waiting for confirmations
+			if id, err := w.StartDKG(1, 2, now().Add(2*time.Second)); err == nil {
+				rounds = append(rounds, id)
+			}
+			// a round that got into the key phase (both confirmed)
+			if id, err := w.StartDKG(0, 2, now().Add(3*time.Second)); err == nil {
+				for p := 0; p < 2; p++ {
+					_ = w.Board.Send(world.SignMsg(w.Nodes[p], id, EvConfirm, mkReq(requests.SignatureProposalParticipantRequest{ParticipantId: p, CreatedAt: now()}), ""))
+				}
+				rounds = append(rounds, id)
+			}
+			for i := 0; i < 4; i++ {
+				_, _ = v.PollStep(0)
+			}
+			want := map[string]string{}
+			states := map[string]bool{}
+			for _, r := range rounds {
+				want[r] = NodeState(v, r)
+				states[want[r]] = true
+			}
+			wit := map[string]interface{}{"family": "several rounds in different states listed at once", "rounds": len(rounds), "states": sortedKeys(states), "case_seed": seed}
+			if len(states) < 3 {
+				c.Inconclusive("several-rounds world: only %d distinct states (%v)", len(states), sortedKeys(states))
+				return
+			}
+			api := apiFor(v)
+			for call := 0; call < 12; call++ {
+				var listed map[string]string
+				if api != nil && call%2 == 1 {
+					raw, err := api.FSMList()
+					if err != nil {
+						c.Violate("C19/listing-fails", fmt.Sprintf("GET /getFSMList with %d rounds stored: %v", len(rounds), err), wit)
+						return
+					}
+					_ = json.Unmarshal(raw, &listed)
+				} else {
+					l, err := v.FSM.GetFSMList()
+					if err != nil {
+						c.Violate("C19/listing-fails", fmt.Sprintf("round listing with %d rounds stored: %v", len(rounds), err), wit)
+						return
+					}
+					listed = l
+				}
+				c.Eval(1)
+				for _, r := range rounds {
+					if listed[r] != want[r] {
+						c.Violate("C19/listed-state-differs-from-the-rounds-own", fmt.Sprintf("with %d rounds stored the listing shows round %s in %q; restored on its own it is in %q (call %d)", len(rounds), trunc(r, 8), listed[r], want[r], call+1), wit)
+						return
+					}
+				}
+			}
+			c.Add("listings_of_several_rounds_in_different_states", 12)
+			c.Distinct(fmt.Sprintf("several-rounds-listed|%s", strings.Join(sortedKeys(states), ",")))
+		}()
 	}
 }
